@@ -9,9 +9,10 @@
     for all records — not only the generated ones.
   * Every request of every call history is built by one of the paths (`trace`), so all-paths-compliant gives the
     property for all configurations × histories (`C19_every_request_good`).
-  * On the current tree three paths are NOT compliant (D31).  The full statement is kept as
-    `C19_all_paths_compliant_if_no_deviation`; what holds today is `C19_all_paths_compliant_partial`, and
-    `C19_noncompliant_witness` lists exactly the deviating (function, aspect) pairs.
+  * All nine regenerated paths are compliant (`C19_all_paths_compliant`), hence `C19_every_request_good_generated`.
+  * Before the D31 repair three paths were not. The witness theorems are kept as statements about the literal pre-fix
+    table `preFixPaths` (the bad region of the family): `C19_prefix_noncompliant_witness`,
+    `C19_prefix_partial`, `C19_prefix_answer_delete_counterexample`, `C19_prefix_error_not_blocking_counterexample`.
 -/
 import Mcp.Model.ReqPaths
 import Mcp.Gen.ReqPaths
@@ -41,20 +42,23 @@ theorem C19_all_paths_compliant_if_no_deviation (ps : List ReqPath) (h : deviati
     | cons a l => rw [hm] at h1; simp at h1
   simp [compliant, h2]
 
-/-- The paths that deviate today (D31).
-    When these are repaired in /repo this theorem (and the two `…_counterexample`s at the end) stop holding; they
-    are then replaced by the unconditional
-    `theorem C19_all_paths_compliant : ∀ p ∈ Mcp.Gen.ReqPaths.paths, compliant p = true := by decide`. -/
-theorem C19_noncompliant_witness :
-    deviations Mcp.Gen.ReqPaths.paths =
+/-- Every function that builds an `http.Request` honours every customisation aspect. -/
+theorem C19_all_paths_compliant : ∀ p ∈ Mcp.Gen.ReqPaths.paths, compliant p = true := by decide
+
+/-- … equivalently: the regenerated table has no deviating (function, aspect) pair. -/
+theorem C19_no_deviation : deviations Mcp.Gen.ReqPaths.paths = [] := by decide
+
+/-- The bad region, for the record: the (function, aspect) pairs that deviated before the D31 repair. -/
+theorem C19_prefix_noncompliant_witness :
+    deviations preFixPaths =
       [ (t!"sendResponseMessage", .beforeRequest),
         (t!"sendResponseToServer", .path), (t!"sendResponseToServer", .beforeRequest),
         (t!"terminateSession", .handler), (t!"terminateSession", .beforeRequest) ] := by
   decide
 
-/-- Every other path is compliant. -/
-theorem C19_all_paths_compliant_partial :
-    ∀ p ∈ Mcp.Gen.ReqPaths.paths,
+/-- … every other pre-fix path was compliant. -/
+theorem C19_prefix_partial :
+    ∀ p ∈ preFixPaths,
       (p.client, p.fn) ∉ [ (Client.sse, t!"sendResponseMessage"), (Client.streamable, t!"sendResponseToServer"),
                            (Client.streamable, t!"terminateSession") ] →
       compliant p = true := by
@@ -238,32 +242,47 @@ theorem C19_every_request_good (ps : List ReqPath) (hall : ∀ p ∈ ps, complia
         exact good_of p k' hkind (hall p hmem) cfg issued
     · exact ih _ o hrest k obs heq
 
+/-- The property for the code as it is: for every configuration, client and call history, every request the
+    history emits (through the regenerated request builders) is good. -/
+theorem C19_every_request_good_generated (cfg : Cfg) (c : Client) (hist : List Op) (st : St) :
+    ∀ o ∈ trace cfg Mcp.Gen.ReqPaths.paths c st hist, ∀ k obs, o = some (k, obs) → good cfg k obs = true :=
+  C19_every_request_good _ C19_all_paths_compliant cfg c hist st
+
+/-- … and a failing before-request function stops every kind of request of both clients. -/
+theorem C19_error_blocks_generated :
+    ∀ p ∈ Mcp.Gen.ReqPaths.paths, (attempt ((kindOf p).getD .request) p).sent = false ∧
+      (attempt ((kindOf p).getD .request) p).before = 1 := by
+  decide
+
 /-! ## non-vacuity on the regenerated table -/
 
 /-- The hypotheses of the per-request theorems are met by a generated path: `send` is a known, compliant builder. -/
 example : ∃ p ∈ Mcp.Gen.ReqPaths.paths, p.fn = t!"send" ∧ kindOf p = some .request ∧ compliant p = true := by decide
 
-/-- With everything configured, handshake + request + notification of both clients are observed good on the
-    current tree (6 requests, each through the custom handler and once through the before-request function). -/
+/-- With everything configured, the full history of both clients (handshake, request, retried request, notification,
+    answers to server requests, DELETE) yields 10 + 9 requests, none missing a builder, each good, each once through
+    the before-request function and through the custom handler. -/
 example :
-    ([Client.streamable, Client.sse].flatMap (fun c =>
-        trace ⟨true, true, true, true, true⟩ Mcp.Gen.ReqPaths.paths c {} [.initialize, .tools, .notify])).all
-      (fun o => match o with
-        | some (k, obs) => good ⟨true, true, true, true, true⟩ k obs && obs.before == 1 && obs.via == .custom
+    let cfg : Cfg := ⟨true, true, true, true, true⟩
+    let obs := [Client.streamable, Client.sse].flatMap (fun c =>
+        trace cfg Mcp.Gen.ReqPaths.paths c {} [.initialize, .tools, .toolsRetry, .notify, .roots, .rootsUnknown, .terminate])
+    obs.length = 19 ∧ obs.all (fun o => match o with
+        | some (k, obs) => good cfg k obs && obs.before == 1 && obs.via == .custom
         | none => false) = true := by decide
 
-/-- D31 at the level of observations: with a custom path and a before-request function configured, the Streamable
-    client's answer to a server-issued `roots/list` misses the path and never reaches the function; the DELETE
-    bypasses the custom handler. -/
-theorem C19_answer_delete_counterexample :
-    trace ⟨true, true, true, true, true⟩ Mcp.Gen.ReqPaths.paths .streamable ⟨true, true⟩ [.roots, .terminate] =
+/-! ## the bad region (pre-fix table) at the level of observations -/
+
+/-- D31: with a custom path and a before-request function configured, the Streamable client's answer to a
+    server-issued `roots/list` missed the path and never reached the function; the DELETE bypassed the custom handler. -/
+theorem C19_prefix_answer_delete_counterexample :
+    trace ⟨true, true, true, true, true⟩ preFixPaths .streamable ⟨true, true⟩ [.roots, .terminate] =
       [ some (.answer, ⟨t!"sendResponseToServer", .post, false, true, true, .custom, true, 0, .unseen⟩),
         some (.delete, ⟨t!"terminateSession", .delete, true, true, true, .bare, true, 0, .unseen⟩) ] := by
   decide
 
-/-- … and a failing before-request function does not stop either of them. -/
-theorem C19_error_not_blocking_counterexample :
-    (Mcp.Gen.ReqPaths.paths.filter (fun p => (attempt ((kindOf p).getD .request) p).sent)).map (·.fn) =
+/-- … and a failing before-request function stopped none of the three. -/
+theorem C19_prefix_error_not_blocking_counterexample :
+    (preFixPaths.filter (fun p => (attempt ((kindOf p).getD .request) p).sent)).map (·.fn) =
       [t!"sendResponseMessage", t!"sendResponseToServer", t!"terminateSession"] := by
   decide
 
